@@ -214,3 +214,41 @@ def po_max_withdraw(S):
         except REJECT:
             ok = False
         S.check("helper-amount-accepted", ok)
+
+
+@proof("C11", "next-bar/limits-follow-THIS-bar's-indices-and-prices(after-the-views-were-read-in-an-earlier-bar)", strength="S",
+       shapes={k: [s for s in v if s["supplies"] and s["borrows"]][:2] for k, v in SHAPES.items()}, contracts=AAVE_CONTRACTS, config={"max_seconds": 600})
+def po_next_bar(S):
+    """The limits are stated per bar.  In bar 0 the strategy reads every view (and may have a request rejected) — whatever the market
+    memoises is then filled; bar 1 brings new indices and prices; a borrow / collateral withdrawal accepted in bar 1 must satisfy the
+    limits at bar 1's values."""
+    from demeter.aave._typing import AaveMarketStatus
+    from .worlds import T1
+    w = world(S)
+    m = w.market
+    read_views(m)
+    try:
+        m.borrow(w.op, S.dec("amount_bar0", 10 ** 13, 10 ** 14))      # a hopeless request: rejected after the market looked at its debts
+    except REJECT:
+        pass
+    n0 = len(w.actions)
+    pr = add_next_bar(S, w, "next_")
+    m.set_market_status(AaveMarketStatus(T1, None), pr)
+    amount = S.dec("amount", None, None)
+    if S.bool("is_borrow"):
+        try:
+            m.borrow(w.op, amount)
+        except REJECT:
+            return
+        if len(w.actions) > n0:
+            S.cover("accepted")
+        S.check("bar-1:accepted-borrow=>all-debt<=collateral-x-weighted-max-ltv(at-bar-1)", S.le(total_debt_value(m), weighted_collateral(m, "LTV")))
+    else:
+        if w.op not in m._supplies:
+            return
+        was_collateral = m._supplies[w.op].collateral
+        try:
+            m.withdraw(w.op, amount)
+        except REJECT:
+            return
+        S.check("bar-1:accepted-collateral-withdrawal=>health-factor>=1(at-bar-1,mod-dust)", not was_collateral or hf_at_least_one_mod_dust(m, w.op))
